@@ -214,7 +214,7 @@ PLANS['C13'] = {
 PLANS['C14'] = {
     'quick': [{'name': 'hooks', 'module': 'Hooks', 'mode': 'hooks', 'invariants': ['NoLibc', 'ReallocOnlyDefault', 'Counterpart', 'Routed', 'Restores'],
                'constants': {'MaxHeld': 2, 'Emit': 'TRUE'}, 'timeout': 600},
-              print_run('printQ14', 'quick', failinject=True), parse_run('bigq14', 'bigq', 0, 1000), tree('S3h', 3, 1, 2, '{1}', 'S', 'S'), tree('O3h', 3, 1, 2, '{1}', 'O', 'O')],
+              print_run('printQ14', 'quick', failinject=True), parse_run('bigq14', 'bigq', 0, 1000), tree('S3h', 3, 1, 2, '{1}', 'S', 'S'), tree('O3h', 3, 1, 2, '{1}', 'O', 'O'), tree('SV2h', 2, 1, 4, '{1}', 'Str', 'SV', maxfail=3), tree('CF3h', 3, 1, 1, '{1}', 'K', 'CF', maxfail=3)],
     'thorough': [{'name': 'hooks', 'module': 'Hooks', 'mode': 'hooks', 'invariants': ['NoLibc', 'ReallocOnlyDefault', 'Counterpart', 'Routed', 'Restores'],
                   'constants': {'MaxHeld': 3, 'Emit': 'TRUE'}, 'timeout': 600},
                  print_run('printT14', 'thorough', failinject=True), tree('O3h', 3, 1, 2, '{1}', 'O', 'O')],
